@@ -13,9 +13,10 @@ Model: `Abra.Analysis` (the repaired `collect_locals_*`, `collect_captures_*`,
 * `C03_loop_ctx_agree` — a `break`/`continue` the checker's loop stack accepts finds a loop on the code
   generator's loop stack (lambda/task bodies start with an empty stack on both sides).
 
--- OPEN: the other panic sites of translate_bytecode.rs (`unreachable!`, `panic!("unexpected pattern")`,
--- `unimplemented!()` for compound assignment through a user `Index`) are not modelled; they are reached only
--- through the tie (accepted ⇒ compiles, over the nesting stream).
+-- OPEN: the other panic sites of translate_bytecode.rs (`unreachable!`, `panic!("unexpected pattern")`) are not
+-- modelled; they are reached only through the tie (accepted ⇒ compiles, over the nesting stream and the template
+-- families of harness/src/bg9cov.rs).  (The `unimplemented!()` for compound assignment through a user `Index` is gone:
+-- D79, 33617bc.)
 -/
 namespace Abra.Analysis
 
